@@ -21,7 +21,8 @@ def member_path(name):
 
 
 def located(tag):
-    return I.Enum("Located", None, {"tag": tag, "location": I.Opaque("loc"), "node": I.Opaque("node")})
+    # Located<ast::Expression> derefs to its node: both carry the tag the scripted sub-expression parser reads
+    return I.Enum("Located", None, {"tag": tag, "location": I.Opaque("loc"), "node": I.Enum("AstExpression", None, {"tag": tag})})
 
 
 class Elab:
